@@ -85,6 +85,7 @@ type Step struct {
 	How      string                `json:"how"`      // tamper: dropCreated | epochCreated | garbageCreated | dropTokens
 	R        int                   `json:"r"`        // replica (service instance) that receives the request, default 0
 	B        string                `json:"b"`        // browser id
+	Env      string                `json:"env"`      // request envelope of this request only (overrides the scenario's; "plain" = none)
 	F        string                `json:"f"`        // filter (chain) addressed
 	Kind     string                `json:"kind"`     // app | callback | logout
 	Cookie   string                `json:"cookie"`   // none | jar | sid:<k> | forged | raw:<value>
